@@ -481,6 +481,19 @@ code forms — the twins cannot disagree, and a node given as FST is treated lik
 theorem identifier_forms_normalised :
     Pfst.SharedDelims.identFormsNormalised = true ∧ Pfst.Gen.C08Ident.table.length = 16 := by decide
 
+/-- **Source order is lexicographic**: a header child on a later line comes after one on an earlier line whatever the
+columns, one on an earlier line never does, and on the same line the column decides — so the block colon is searched for
+after the child that really is last. -/
+theorem posAfter_spec (l1 c1 l2 c2 : Nat) :
+    (l1 > l2 → Pfst.SharedDelims.posAfter l1 c1 l2 c2 = true) ∧
+    (l1 < l2 → Pfst.SharedDelims.posAfter l1 c1 l2 c2 = false) ∧
+    (l1 = l2 → Pfst.SharedDelims.posAfter l1 c1 l2 c2 = decide (c1 > c2)) := by
+  unfold Pfst.SharedDelims.posAfter
+  refine ⟨fun h => by simp [h], fun h => ?_, fun h => by subst h; simp⟩
+  have h1 : ¬ l1 > l2 := by omega
+  have h2 : (l1 == l2) = false := by simp; omega
+  simp [h1, h2]
+
 /-- **`AnnAssign.simple` after a put into the target is what CPython gives the new source**: 1 exactly for a bare,
 unparenthesised name — any number of parentheses and any non-Name target give 0. -/
 theorem annSimple_correct (isName : Bool) (npars : Nat) :
@@ -520,6 +533,7 @@ example : commentPut k0 false "".toList "a\rb".toList = .valueError := by decide
 example : commentPut k0 true "  # old".toList "# a\x00b".toList = .valueError := by decide
 example : ("  # old".toList).all lineOK = true ∧ commentPut k0 false "  # old".toList "a\x0cb".toList = .ok "  # a\x0cb".toList := by decide
 example : Pfst.SharedDelims.annSimple true 1 = 0 ∧ Pfst.SharedDelims.annSimple true 0 = 1 ∧ Pfst.SharedDelims.annSimple false 0 = 0 := by decide
+example : Pfst.SharedDelims.posAfter 2 0 1 14 = true ∧ Pfst.SharedDelims.posAfter 1 20 1 14 = true ∧ Pfst.SharedDelims.posAfter 1 5 2 0 = false := by decide
 example : elifDecision ⟨false, true, true, true, true, false, 1, true⟩ = .keep := by decide      -- first of several: no elif
 example : elifDecision ⟨false, false, true, true, true, false, 1, true⟩ = .toElif := by decide
 example : elifDecision ⟨false, false, true, true, false, true, 1, true⟩ = .toElse := by decide
